@@ -130,6 +130,24 @@ def c12ind (a : List String) (obs : String) : String × String :=
     (model, verdict)
   | _ => ("BADOP", "skip")
 
+def c12indr (a : List String) (obs : String) : String × String :=
+  match a with
+  | [_enc, m1, m2, _kind] =>
+    let c1 := hexOrEmpty (getF obs "comp1")
+    let c2 := hexOrEmpty (getF obs "comp2")
+    let (b1, e1) := flRead c1
+    let (b2, e2) := flRead c2
+    let model := s!"comp1={getF obs "comp1"} comp2={getF obs "comp2"} back1={Bytes.toHex b1} rerr1={if e1 == .final then "nil" else endStr e1} back2={Bytes.toHex b2} rerr2={if e2 == .final then "nil" else endStr e2}"
+    let (p1, _) := inflate (c1 ++ compressionTail)
+    let (p2, _) := inflate (c2 ++ compressionTail)
+    let verdict :=
+      if p1 != hexOrEmpty m1 || p2 != hexOrEmpty m2 then "skip"
+      else if hexOrEmpty (getF obs "back1") != p1 || getF obs "rerr1" != "nil" then "bad:reader-fails-on-independent-encoder-output"
+      else if hexOrEmpty (getF obs "back2") != p2 || getF obs "rerr2" != "nil" then "bad:reused-reader-does-not-recover-the-next-message"
+      else "ok"
+    (model, verdict)
+  | _ => ("BADOP", "skip")
+
 def c12cf (a : List String) (obs : String) : String × String :=
   match a with
   | [fin, rsv, op, masked, pay] =>
